@@ -33,7 +33,26 @@ def _run_chunk(args):
     return lo, out
 
 
-def run_cases(fn, cases, warm_cases=(), procs=None, chunk=None, stall=240):
+def _grouped_jobs(cases, group, procs):
+    """chunks that never mix groups (a group = one JIT specialisation family, e.g. a value dtype):
+    each worker then compiles only what its chunk needs."""
+    order = sorted(range(len(cases)), key=lambda i: str(group(cases[i])))
+    groups = {}
+    for i in order:
+        groups.setdefault(str(group(cases[i])), []).append(i)
+    total = len(cases)
+    target = max(procs, 1)
+    jobs = []
+    for g, idxs in groups.items():
+        k = max(1, round(target * len(idxs) / total))
+        size = (len(idxs) + k - 1) // k
+        for lo in range(0, len(idxs), size):
+            jobs.append(idxs[lo:lo + size])
+    jobs.sort(key=len, reverse=True)
+    return jobs
+
+
+def run_cases(fn, cases, warm_cases=(), procs=None, chunk=None, stall=240, group=None):
     """fn(case) -> trace dict (must catch library exceptions itself).  Order preserved."""
     global _FN
     _FN = fn
@@ -60,8 +79,25 @@ def run_cases(fn, cases, warm_cases=(), procs=None, chunk=None, stall=240):
             ntasks += 1
     if ntasks > 1 and not _ALLOW_THREADS:
         raise RunnerError(f"parent process has {ntasks} OS threads before fork(): warm-up cases must be thread-free")
+    results = [None] * n
+    if group is not None:
+        idx_jobs = _grouped_jobs(cases, group, procs)
+        perm = [i for j in idx_jobs for i in j]
+        # run each index job as its own chunk
+        jobs, pos = [], 0
+        for j in idx_jobs:
+            jobs.append((pos, [cases[i] for i in j]))
+            pos += len(j)
+        out_perm = _run_jobs(jobs, len(perm), procs, stall)
+        for k, i in enumerate(perm):
+            results[i] = out_perm[k]
+        return results
     chunk = chunk or max(20, min(2000, n // (procs * 4)))
     jobs = [(lo, cases[lo:lo + chunk]) for lo in range(0, n, chunk)]
+    return _run_jobs(jobs, n, procs, stall)
+
+
+def _run_jobs(jobs, n, procs, stall):
     results = [None] * n
     ctx = mp.get_context("fork")
     failed = []
